@@ -550,6 +550,53 @@ func (an *analyzer) runOnce(fn *ssa.Function, params []aval, free []aval, depth 
 	execBV := map[[2]int]bool{{0, 0}: true} // (block, version)
 	execEV := map[[4]int]bool{}             // (from, fromVersion, to, toVersion)
 	exitV := map[[2]int]bool{}              // (loop header, version): an edge leaving the loop from that version is executable
+	// per-iteration contents of local cells that are stored inside an unrolled loop
+	// (a variable reassigned every iteration): see loadCell
+	type cellKey struct {
+		al   *ssa.Alloc
+		h, k int
+	}
+	memV := map[cellKey][]aval{}
+	memNL := map[*ssa.Alloc][]aval{} // what was stored outside the unrolled loops
+	storeRoot := func(st *ssa.Store) *ssa.Alloc {
+		switch a := st.Addr.(type) {
+		case *ssa.Alloc:
+			return a
+		case *ssa.FieldAddr:
+			al, _ := a.X.(*ssa.Alloc)
+			return al
+		case *ssa.IndexAddr:
+			al, _ := a.X.(*ssa.Alloc)
+			return al
+		}
+		return nil
+	}
+	storeField := func(st *ssa.Store) int { // -1: the whole cell
+		switch a := st.Addr.(type) {
+		case *ssa.FieldAddr:
+			return a.Field
+		case *ssa.IndexAddr:
+			if c, ok := a.Index.(*ssa.Const); ok && c.Value != nil {
+				if v, exact := constant.Int64Val(c.Value); exact {
+					return int(v)
+				}
+			}
+			return -2 // unknown element
+		}
+		return -1
+	}
+	allStores := map[*ssa.Alloc][]*ssa.Store{}
+	if len(loops) > 0 {
+		for _, b := range fn.Blocks {
+			for _, ins := range b.Instrs {
+				if st, ok := ins.(*ssa.Store); ok {
+					if al := storeRoot(st); al != nil {
+						allStores[al] = append(allStores[al], st)
+					}
+				}
+			}
+		}
+	}
 	var curB *ssa.BasicBlock
 	curK := 0
 	defLoop := func(v ssa.Value) *uloop {
@@ -655,6 +702,110 @@ func (an *analyzer) runOnce(fn *ssa.Function, params []aval, free []aval, depth 
 		}
 		return 1
 	}
+	// loadCell: a load, inside an unrolled loop, of a non-escaping local cell that the
+	// loop stores to: the value of the current iteration when a store of this
+	// iteration dominates the load, else the value the previous iteration left
+	// (what was stored before the loop for the first one).
+	loadCell := func(x *ssa.UnOp, a aval, b *ssa.BasicBlock, ver int) (aval, bool) {
+		L := loops[b.Index]
+		if L == nil || a.k != kNonNil || a.alloc == nil || a.ptrOf != nil || escapes(a.alloc) {
+			return aval{}, false
+		}
+		al := a.alloc
+		var inLoop []*ssa.Store
+		for _, st := range allStores[al] {
+			switch SL := loops[st.Block().Index]; {
+			case SL == L:
+				inLoop = append(inLoop, st)
+			case SL != nil:
+				return aval{}, false // stored in another unrolled loop too: not tracked
+			}
+			if storeField(st) == -2 {
+				return aval{}, false
+			}
+		}
+		if len(inLoop) == 0 {
+			return aval{}, false
+		}
+		var latches []*ssa.BasicBlock
+		for _, bb := range fn.Blocks {
+			if L.body[bb.Index] {
+				for _, sc := range bb.Succs {
+					if sc.Index == L.header {
+						latches = append(latches, bb)
+					}
+				}
+			}
+		}
+		affects := func(st *ssa.Store, i int) bool { f := storeField(st); return f == -1 || f == i }
+		var entry func(i, k int) aval
+		entry = func(i, k int) aval {
+			if k <= 0 {
+				if m := memNL[al]; m != nil && i < len(m) && m[i].k != kBot {
+					return m[i]
+				}
+				return top // zero value: unknown to this domain
+			}
+			strong := false
+			for _, st := range inLoop {
+				if !affects(st, i) {
+					continue
+				}
+				all := len(latches) > 0
+				for _, l := range latches {
+					if !(st.Block() == l || st.Block().Dominates(l)) {
+						all = false
+					}
+				}
+				if all {
+					strong = true
+				}
+			}
+			v := bot
+			if prev := memV[cellKey{al, L.header, k - 1}]; prev != nil && i < len(prev) {
+				v = prev[i]
+			}
+			if strong {
+				return v // bot until the store of the previous iteration was evaluated
+			}
+			return join(v, entry(i, k-1))
+		}
+		cell := func(i int) aval {
+			for _, st := range inLoop {
+				if affects(st, i) && dominatesInstr(st, x) {
+					if cur := memV[cellKey{al, L.header, ver}]; cur != nil && i < len(cur) {
+						return cur[i]
+					}
+					return bot
+				}
+			}
+			v := entry(i, ver)
+			if ver == K {
+				// the summary iteration follows itself
+				if cur := memV[cellKey{al, L.header, K}]; cur != nil && i < len(cur) {
+					v = join(v, cur[i])
+				}
+			}
+			return v
+		}
+		if a.n > 0 {
+			return cell(a.n - 1), true
+		}
+		if st, ok := al.Type().(*types.Pointer).Elem().Underlying().(*types.Struct); ok {
+			r := aval{k: kStruct, elems: make([]aval, st.NumFields())}
+			for i := range r.elems {
+				r.elems[i] = cell(i)
+				if r.elems[i].k == kBot {
+					return bot, true
+				}
+			}
+			return r, true
+		}
+		if memSize(al) == 1 {
+			return cell(0), true
+		}
+		return aval{}, false
+	}
 	changed := true
 	iter := 0
 	for changed {
@@ -718,7 +869,11 @@ func (an *analyzer) runOnce(fn *ssa.Function, params []aval, free []aval, depth 
 						case x.Op == token.SUB && a.k == kConst:
 							nv = aval{k: kConst, c: wrapInt(constant.UnaryOp(token.SUB, a.c, 0), x.Type())}
 						case x.Op == token.MUL:
-							nv = an.load(x, a, mem, escapes)
+							if v, ok := loadCell(x, a, b, ver); ok {
+								nv = v
+							} else {
+								nv = an.load(x, a, mem, escapes)
+							}
 						default:
 							nv = top
 						}
@@ -881,6 +1036,43 @@ func (an *analyzer) runOnce(fn *ssa.Function, params []aval, free []aval, depth 
 								if j := join(mem[al][idx], v); !eq(j, mem[al][idx]) {
 									mem[al][idx] = j
 									changed = true
+								}
+							}
+							// the same store, filed under the iteration it belongs to
+							if len(loops) > 0 {
+								var dst []aval
+								if L := loops[b.Index]; L != nil {
+									ck := cellKey{al, L.header, ver}
+									if memV[ck] == nil {
+										memV[ck] = make([]aval, size)
+									}
+									dst = memV[ck]
+								} else {
+									if memNL[al] == nil {
+										memNL[al] = make([]aval, size)
+									}
+									dst = memNL[al]
+								}
+								_, isStruct := al.Type().(*types.Pointer).Elem().Underlying().(*types.Struct)
+								for fi := range dst {
+									var fv aval
+									switch {
+									case idx == fi:
+										fv = v
+									case idx == -1 && isStruct:
+										fv = top
+										if v.k == kStruct && fi < len(v.elems) {
+											fv = v.elems[fi]
+										}
+									case idx == -1 && size == 1:
+										fv = v
+									default:
+										continue
+									}
+									if j := join(dst[fi], fv); !eq(j, dst[fi]) {
+										dst[fi] = j
+										changed = true
+									}
 								}
 							}
 							// keep the array value in step with its contents so that a
